@@ -89,13 +89,13 @@ CLAIMED = {
              "all code points with the percent-encoding table regenerated from parser.py on every run; encoded text is free of "
              "tab/newline/CR/;/=/,/&; split_with D (reconstruct m D) = Ok m for ALL mappings of the property (word-like unique "
              "keys, non-empty lists of non-empty unicode strings) and all 24 GFF3-style dialects, and for all 12 standard GTF "
-             "dialects on values free of ; \" , and control characters (C08_roundtrip_gtf); the supplied-dialect parser is "
-             "total; the printed Feature is one line with exactly 8+|extra| tabs (C08_single_line). The nine-column framing of the printed line and totality of the inference "
-             "path against the real parser are decided by the correspondence (6k mappings x 48 dialects, every string up to "
+             "dialects on values free of ; \" , and control characters (C08_roundtrip_gtf); the printed Feature is one line with exactly "
+             "8+|extra| tabs (C08_single_line). 'Parsing never raises' is NOT carried by a theorem (the model's primitives are "
+             "total, so C08_total_with holds by construction): for both parser paths it is decided by the correspondence (6k mappings x 48 dialects, every string up to "
              "length 6 over the structural alphabet screened through both parser paths).",
         note="Trusted: Coq kernel + vm_compute; Model/Parser.v (hand model of _split_keyvals/_reconstruct/Feature.__str__) and "
              "Base/Utf8.v (model of urllib.parse.unquote + UTF-8 'replace') are tied to the code by the correspondence only; "
-             "_to_quote is translator-generated. Totality of the inference path is decided by the correspondence only. Known finding "
+             "_to_quote is translator-generated. Totality (both paths) is decided by the correspondence only. Known finding "
              "F16 (non-standard GTF dialects) is recorded with a Coq refutation witness (Examples/C08_inhabited.v).",
         technique="Coq proof (codec round-trip theorems over generated quoting table) + differential correspondence incl. exhaustive short strings",
         design="4 (C08)"),
@@ -182,7 +182,9 @@ CLAIMED = {
         note="Trusted: Coq kernel + vm_compute; Model/Import.v hand-written, tied by the correspondence. Python's list(set(v)) "
              "order is unspecified: the model keeps merged values sorted and the comparison is on sets. That at most one merge "
              "candidate agrees with a newcomer on the compared columns is a theorem (C05_merge_candidates_distinct: invariant of "
-             "every import under 'merge' from empty tables), so Python's set order cannot matter there. GTF importer dispatch is the same "
+             "every import under 'merge' from empty tables), so Python's set order cannot matter there (in mixed-strategy histories "
+             "two candidates can agree with a newcomer; which of them receives the union then follows list(set()) order: the "
+             "model takes the last in table order; all agreeing candidates' values are unioned either way). GTF importer dispatch is the same "
              "code shape and is exercised by C03's correspondence. update() reuses the importer (C10).",
         technique="Coq proof (per-strategy state-transition theorems, attribute-union theorem) + exhaustive small-scope differential correspondence",
         design="4 (C05)"),
